@@ -84,6 +84,10 @@ def run(prog: Program, col: Collector, tier: str, refs: Optional[Refs] = None, c
     col.rule("R07.5", "only reflect instantiates terms; every metaclass __call__ funnels into it", floor=10)
     _only_reflect(prog, col, refs, cat)
 
+    # ---------------------------------------------------------------- R07.8
+    col.rule("R07.8", "no strong memo table holds term instances (entries must stay reclaimable)", floor=3)
+    _strong_memos(prog, col, refs, cat)
+
     # ---------------------------------------------------------------- R07.6
     col.rule("R07.6", "identity hooks: __hash__/__copy__/__reduce__ and pickling go through the interning constructors", floor=8)
     _identity_hooks(prog, col, refs, cat)
@@ -309,6 +313,16 @@ def _key_coverage(prog: Program, col: Collector, refs: Refs, cat: Catalogue):
         used = {n.id for n in walk_no_nested(m.node) if isinstance(n, ast.Name)}
         rets = [n for n in walk_no_nested(m.node) if isinstance(n, ast.Return)]
         sliced = [n for r in rets for n in ast.walk(r) if isinstance(n, ast.Subscript) and isinstance(n.slice, ast.Slice) and isinstance(n.value, ast.Name) and n.value.id in params]
+        # the key must be uniquely decodable: per-element pieces of different lengths must not be concatenated
+        flattened = []
+        for n in walk_no_nested(m.node):
+            if isinstance(n, ast.AugAssign) and isinstance(n.op, ast.Add) and isinstance(n.value, ast.IfExp) \
+                    and isinstance(n.value.body, ast.Tuple) and isinstance(n.value.orelse, ast.Tuple) and len(n.value.body.elts) != len(n.value.orelse.elts) \
+                    and any(isinstance(a, (ast.For, ast.While)) for a in m.module.ancestors(n)):
+                flattened.append(n)
+        for n in flattened:
+            col.violation(f"{m.fq}::{norm(n)}", "the key is built by concatenating per-element pieces of different lengths: different argument lists flatten to the same key "
+                          "(a request is answered with an op built from different arguments)", m.loc(n))
         col.check(set(params) <= used and not sliced and bool(rets), f"{m.fq}::covers args and kwargs",
                   "the key is derived from both the positional and the keyword parameters",
                   f"hash_args_kwargs ignores part of its input ({sorted(set(params) - used) or 'sliced'}): differently parametrised ops would be the same object", m.loc())
@@ -481,6 +495,32 @@ def _check_meta_call(col: Collector, m: Func, refs: Refs):
     falls_off = any(lab != "return" for n, lab in cfg.pred(cfg.exit))
     if falls_off:
         col.violation(f"{m.fq}::fall-through", "a path falls off the end of the metaclass __call__ (returns None instead of a term)", m.loc())
+
+
+def _strong_memos(prog: Program, col: Collector, refs: Refs, cat: Catalogue):
+    memo = {"functools.lru_cache", "functools.cache", "functools.cached_property"}
+    for f in prog.funcs.values():
+        decs = []
+        for d in f.decorators:
+            r = refs.resolve(d.func if isinstance(d, ast.Call) else d)
+            if r in memo:
+                decs.append(r)
+        if not decs:
+            continue
+        others = {norm(d) for d in f.decorators}
+        is_instance_method = f.cls is not None and not ({"classmethod", "staticmethod"} & others)
+        term_self = is_instance_method and f.cls.fq in cat.term_classes
+        asserted = [c.args[0].id for n in walk_no_nested(f.node) if isinstance(n, ast.Assert) for c in ast.walk(n.test)
+                    if isinstance(c, ast.Call) and norm(c.func) == "isinstance" and len(c.args) == 2 and isinstance(c.args[0], ast.Name)
+                    and refs.resolve(c.args[1]) in cat.term_classes and c.args[0].id in f.positional]
+        construct = f"{f.fq}::@{decs[0].rsplit('.', 1)[-1]}"
+        if term_self and decs[0] != "functools.cached_property":
+            col.violation(construct, f"{decs[0]} on an instance method of term class {f.cls.name} keeps every `self` it was called on alive for ever: "
+                          "the weak intern table can never drop those terms (nor the arrays behind them)", f.loc())
+        elif asserted:
+            col.violation(construct, f"{decs[0]} on a function whose parameter `{asserted[0]}` is a term keeps those terms alive for ever", f.loc())
+        else:
+            col.ok(construct, "memo keyed by classes / domains / plain data, not by term instances", f.loc())
 
 
 # ---------------------------------------------------------------------- R07.6
